@@ -3518,22 +3518,9 @@ impl Machine {
             )
         };
 
-        let mut iter = match self.machine_st.open_parsing_stream(stream) {
-            Ok(iter) => iter,
-            Err(e) => {
-                if e.is_unexpected_eof() {
-                    return self.machine_st.eof_action(
-                        self.machine_st.registers[2],
-                        stream,
-                        atom!("get_char"),
-                        2,
-                    );
-                } else {
-                    let err = self.machine_st.session_error(SessionError::from(e));
-                    return Err(self.machine_st.error_form(err, stub_gen()));
-                }
-            }
-        };
+        // character input delivers every character of the stream, a U+FEFF included:
+        // it is not the start of a text to be parsed
+        let mut iter = stream;
 
         loop {
             match iter.read_char() {
@@ -3599,12 +3586,7 @@ impl Machine {
                 string.push(c as char);
             }
         } else {
-            let mut iter = self.machine_st.open_parsing_stream(stream).map_err(|e| {
-                let err = self.machine_st.session_error(SessionError::from(e));
-                let stub = functor_stub(atom!("get_n_chars"), 2);
-
-                self.machine_st.error_form(err, stub)
-            })?;
+            let mut iter = stream;
 
             for _ in 0..num {
                 let result = iter.read_char();
@@ -3716,12 +3698,7 @@ impl Machine {
             }
         };
 
-        let mut iter = self.machine_st.open_parsing_stream(stream).map_err(|e| {
-            let err = self.machine_st.session_error(SessionError::from(e));
-            let stub = functor_stub(atom!("get_code"), 2);
-
-            self.machine_st.error_form(err, stub)
-        })?;
+        let mut iter = stream;
 
         loop {
             let result = iter.read_char();
